@@ -62,19 +62,31 @@ func genMutatedRequest(rng *rand.Rand) httpReq {
 		}
 		return httpReq{m, p, b, "malformed-json"}
 	case 4: // search with a vector of the wrong dimension
-		n := []int{0, 1, 2, 4, 9}[rng.Intn(5)]
+		n := []int{0, 1, 2, 4, 9, 3}[rng.Intn(6)] // 3 is the right dimension: then only the ranges are wrong
 		body := map[string]any{"vector": vec(n)}
-		if rng.Intn(2) == 0 {
+		switch rng.Intn(4) {
+		case 0:
 			body["k"] = 1 + rng.Intn(5)
-		} else {
+		case 1:
 			body["radius"] = rng.Float64() + 0.1
+		case 2: // out-of-range k / radius / paging, alone or together
+			body["k"] = []int{-1, -3, 0, 2, 1 << 31}[rng.Intn(5)]
+			if rng.Intn(2) == 0 {
+				body["radius"] = []float64{-0.5, -1e300, 0, 0.25, 1e308}[rng.Intn(5)]
+			}
+		default:
+			body["radius"] = []float64{-0.5, -1e300, 1e308}[rng.Intn(3)]
+			if rng.Intn(2) == 0 {
+				body["offset"] = []int{-1, 5, 1 << 40}[rng.Intn(3)]
+				body["limit"] = []int{-2, 0, 1 << 40}[rng.Intn(3)]
+			}
 		}
 		if rng.Intn(3) == 0 {
 			body["precision"] = "exact"
 		}
 		return httpReq{"POST", base + "/search", jsonS(body), "search-wrong-dimension"}
 	case 5: // search without a vector (GET form)
-		return httpReq{"GET", base + fmt.Sprintf("/search?k=%d&radius=%v&offset=%d&limit=%d&precision=%s", rng.Intn(4), []string{"0", "0.5", "x"}[rng.Intn(3)], rng.Intn(3), rng.Intn(3), []string{"", "exact"}[rng.Intn(2)]), "", "search-get-no-vector"}
+		return httpReq{"GET", base + fmt.Sprintf("/search?k=%d&radius=%v&offset=%d&limit=%d&precision=%s", rng.Intn(6)-2, []string{"0", "0.5", "x", "-0.5", "-1"}[rng.Intn(5)], rng.Intn(4)-1, rng.Intn(4)-1, []string{"", "exact"}[rng.Intn(2)]), "", "search-get-no-vector"}
 	case 6: // invalid filter text
 		f := []string{"x DOES NOT", "a ==", "(a", "a == 1 b", "'", "a IN [", "\x00", "a MATCHES '['"}[rng.Intn(8)]
 		return httpReq{"POST", base + "/search", jsonS(map[string]any{"filter": f, "limit": 2}), "search-bad-filter"}
